@@ -649,7 +649,7 @@ func gen(o hreg.Opts, w *bufio.Writer) error {
 	}
 	rec(nil)
 	// 3. random trees of handles
-	n := o.Pick(6000, 300000)
+	n := o.Pick(12000, 300000)
 	for s := 0; s < n; s++ {
 		begin()
 		st.Add("seq-kind", "random")
